@@ -215,6 +215,8 @@ add('k1_handles', 'splice_nth_e8', 'range_nth_h::<E8>(true, false)', props=['C03
 BPROV = 'at most 2 items remain, n <= 2 (core provided Iterator methods loop over next() / next_back())'
 add('k1_handles', 'iter_provided_e8', 'iter_provided_h::<E8>(false)', props=['C14', 'C13'], tier='q', kind='bounded', bound=BPROV, attrs=['#[kani::unwind(5)]'], cost=20)
 add('k1_handles', 'iter_mut_provided_e8', 'iter_provided_h::<E8>(true)', props=['C14'], tier='q', kind='bounded', bound=BPROV, attrs=['#[kani::unwind(5)]'], cost=20)
+add('k1_handles', 'into_iter_e8', 'into_iter_h::<E8>()', props=['C14', 'C13'], tier='q', cost=10, macro='p')
+add('k1_handles', 'into_iter_e3', 'into_iter_h::<E3>()', props=['C14'], tier='t', cost=60, macro='p')
 add('k1_handles', 'drain_iter_e3', 'range_iter_h::<E3>(false, false)', props=['C14'], tier='t', cost=100)
 
 
